@@ -35,7 +35,7 @@ def better(a, b, minimize):
     return a < b if minimize else a > b
 
 
-def run_elitism(values, entries, k, minimize, form, rec, tag, number_form=None):
+def run_elitism(values, entries, k, minimize, form, rec, tag, number_form=None, prescored=False):
     from collections import Counter
 
     from geneticengine.algorithms.gp.operators.elitism import ElitismStep
@@ -52,6 +52,10 @@ def run_elitism(values, entries, k, minimize, form, rec, tag, number_form=None):
     ev = SequentialEvaluator()
     rep = TableRep()
     table = [Individual((i, v), rep) for i, v in enumerate(values)]
+    if prescored:
+        from vk.values import prescore
+
+        run_elitism.keepalive = prescore(table, minimize)
     pop = [table[i] for i in entries]
     inp = pop if form == "list" else Population(iter(pop), SingleObjectiveProgressTracker(problem, ev), 0)
     try:
@@ -143,7 +147,9 @@ class GeneratedElitism(Facet):
 
     def run(self, case, rec):
         rec.label("numbers:" + str(case.get("number_form")))
-        run_elitism(case["values"], case["entries"], case["k"], case["minimize"], case["form"], rec, "generated", case.get("number_form"))
+        pre = case["k"] % 3 == 1
+        rec.label("prescored-under-another-problem" if pre else "fresh-individuals")
+        run_elitism(case["values"], case["entries"], case["k"], case["minimize"], case["form"], rec, "generated", case.get("number_form"), pre)
         vals = sorted((case["values"][i] for i in case["entries"]), reverse=not case["minimize"])
         k = case["k"]
         if k < len(vals) and vals[k - 1] == vals[k]:
